@@ -32,7 +32,9 @@ RULE = ('prog cases: random template trees over atoms (Constant/Table/Point/Func
         'Observation = exception class | None | duration + multiset of (name, begin, length) from '
         'Loop.get_measurement_windows(), again after cleanup(), plus plotting._render_loop and the public '
         'plotting.render(..., render_measurements=True)[2].  loop cases: hand-built Loop trees (windows on every node '
-        'incl. repeated leaves) through get_measurement_windows, reverse_inplace, cleanup.  trace cases: the same '
+        'incl. repeated leaves) through get_measurement_windows, reverse_inplace, cleanup (judged by an additive '
+        'reading written out in Corr.v: duration, windows, mirror image, cleanup = same duration + windows of the tree '
+        'without its dead non-root nodes).  trace cases: the same '
         'templates built on an instrumented LoopBuilder: every call (measure / play / with_sequence enter+exit / '
         'with_repetition enter+exit / time_reversed / new_subprogram enter+exit) with the state of every frame of every '
         'active builder after it, compared step by step with the stack-machine model.  merge cases: '
@@ -44,7 +46,8 @@ RULE = ('prog cases: random template trees over atoms (Constant/Table/Point/Func
         'logged steps, same result), specification side; make_compatible: Python-side oracle only.  vol cases: '
         'volatile repetition counts updated after the build, incl. counts switched to / from 0 (three cases per run: '
         'model side, specification side, and the guarded positive statement: where the executable guard holds the '
-        'windows must be the declared ones, no known finding applies).  Round 3 families (ordinary prog cases, built '
+        'windows must be the declared ones, no known finding applies; the guard is evaluated on the shape and counts of '
+        'the implementation\'s own program before / after the update).  Round 3 families (ordinary prog cases, built '
         'or called differently): the same template OBJECT at several places of a tree (under one / different '
         'measurement mappings, in repetitions, for loops, reversals, as both operands of an ArithmeticAtomicPT), '
         'create_program called twice on the same object (second program observed, first must agree), a MappingPT '
@@ -81,6 +84,9 @@ TRUSTED = [
 ]
 ASSUMPTIONS = [
     'times are dyadic rationals so that float arithmetic in numpy is exact',
+    'atoms never get a NEGATIVE duration under a generated assignment (there the atom classes differ: ConstantPT gives no '
+    'program, TablePT / PointPT raise ValueError, FunctionPT plays; the specification allows any refusal, the model only '
+    'knows "does not play")',
     'the top-level measurement mapping is total on the names visible at the root (a missing key is a KeyError)',
     'missing parameters: only the legitimacy of a ParameterNotProvidedException is judged (a declared parameter is '
     'missing); WHICH missing parameter the lazy evaluation hits first is not modelled (C03)',
@@ -548,13 +554,13 @@ def _enum_loops():
 def gen_cases(rng, tier, ctx):
     g = G(rng)
     cases = []
-    n_prog, n_loop = (580, 200) if tier == 'quick' else (20000, 5000)
+    n_prog, n_loop = (580, 200) if tier == 'quick' else (3000, 1000)     # thorough trimmed in round 5 (<= ~25 min)
     for i in range(n_prog):
         cases.append(g.prog_case(rng.choice([1, 2, 2, 3, 3, 4] if tier == 'quick' else [1, 2, 2, 3, 3, 4, 4, 5])))
     for i in range(n_loop):
         cases.append(g.loop_case(rng.choice([1, 2, 3])))
     # round 2 kinds
-    n_trace, n_merge, n_rw, n_flat, n_vol = (160, 120, 110, 60, 70) if tier == 'quick' else (4000, 3000, 3000, 1500, 2500)
+    n_trace, n_merge, n_rw, n_flat, n_vol = (160, 120, 110, 60, 70) if tier == 'quick' else (600, 500, 500, 250, 350)
     for i in range(n_trace):
         c = g.prog_case(rng.choice([1, 2, 2, 3, 3] if tier == 'quick' else [1, 2, 3, 3, 4]))
         c['kind'] = 'trace'
@@ -613,7 +619,7 @@ def gen_cases(rng, tier, ctx):
         k += 1
     # round 3: aliasing / repeated calls / rebound loop index / coinciding and swapped names / a parameter called t
     C = sys.modules[__name__]
-    n_share, n_rebind, n_rename, n_tparam = (80, 50, 50, 20) if tier == 'quick' else (2500, 1500, 1500, 400)
+    n_share, n_rebind, n_rename, n_tparam = (80, 50, 50, 20) if tier == 'quick' else (400, 250, 250, 80)
     fam = ([R.gen_share(rng, g, C) for _ in range(n_share)] + [R.gen_rebind(rng, g, C) for _ in range(n_rebind)]
            + [R.gen_rename(rng, g, C) for _ in range(n_rename)] + [R.gen_tparam(rng, g, C) for _ in range(n_tparam)])
     cases.extend(fam)
@@ -621,7 +627,7 @@ def gen_cases(rng, tier, ctx):
         cases.append(dict(c, kind='trace', twice=False))
     # round 4: coinciding window triples at every merge point; the same object under different contexts / after other calls
     gc = R4.make_gc(C, rng)
-    n_coin, n_ctx, n_cloop, n_crw, n_cflat = (130, 80, 50, 30, 12) if tier == 'quick' else (4000, 2500, 1500, 800, 300)
+    n_coin, n_ctx, n_cloop, n_crw, n_cflat = (130, 80, 50, 30, 12) if tier == 'quick' else (600, 400, 250, 120, 50)
     fam4 = [R4.gen_coincide(rng, g, C, gc, k) for k in range(n_coin)] + [R4.gen_context(rng, g, C) for _ in range(n_ctx)]
     cases.extend(fam4)
     for c in fam4[::8 if tier == 'quick' else 4]:
@@ -640,8 +646,8 @@ def gen_cases(rng, tier, ctx):
             cases.append(dict(c, side='model'))
         else:
             cases.append(c)
-    cases.extend(R4.gen_awrap(rng, g, C) for _ in range(60 if tier == 'quick' else 2000))
-    for _ in range(40 if tier == 'quick' else 1500):
+    cases.extend(R4.gen_awrap(rng, g, C) for _ in range(60 if tier == 'quick' else 300))
+    for _ in range(40 if tier == 'quick' else 250):
         cases.append(R4.gen_loop_edit(rng, g if rng.random() < 0.5 else gc))
     cases.extend(R4.enum_loop_empty())
     enum4 = R4.enum_coincide(C) + R4.enum_context(C) + R4.enum_loop_coincide() + R4.enum_awrap(C)
@@ -650,7 +656,7 @@ def gen_cases(rng, tier, ctx):
         enum4 = enum4[:110]
     cases.extend(enum4)
     progs = [c for c in cases if c['kind'] == 'prog' and 'pre' not in c]
-    for _ in range(120 if tier == 'quick' else 4000):
+    for _ in range(120 if tier == 'quick' else 600):
         c = dict(rng.choice(progs))
         declared = sorted(free_params(c['pt']) & set(c['env']))
         pool = declared if declared and rng.random() < 0.6 else sorted(c['env'])
@@ -1342,7 +1348,9 @@ MANIFEST = {
     'level_text': 'Proof (Coq, unbounded in tree shape, counts, ranges, nesting, mappings): (1) for every template tree the '
                   'windows of the program built by the modelled LoopBuilder are a permutation of the windows the template '
                   'denotes (declaration x executions of its node, start + begin, renamed / dropped through the composed '
-                  'mappings, mirrored per execution of a reversed part); program duration = template duration; '
+                  'mappings, mirrored per execution of a reversed part); program duration = template duration; every '
+                  'assignment with nothing to object to (Spec.must_accept) of a template that plays DOES get such a '
+                  'program (total form, round 5); '
                   'declarations inside their node give windows inside [0, duration]; reversal and cleanup of arbitrary '
                   'Loop trees mirror / preserve the windows.  (2) REFINEMENT: the LoopBuilder modelled as the stack '
                   'machine it is (frames, guards with pending windows, nested builders, enter / exit as separate steps) '
@@ -1352,7 +1360,9 @@ MANIFEST = {
                   'does.  (4) unroll / unroll_children / encapsulate / split_one_child / _merge_single_child keep the '
                   'duration and windows-after ++ dropped = windows-before; "unroll keeps the windows" is refuted (known '
                   'finding) and proved under an executable guard; flatten_and_balance (modelled with windows, while loop '
-                  '+ recursion) IS run_seq of the rewrites it logs (theorem), so it keeps the duration and only loses '
+                  '+ recursion) IS run_seq of the rewrites it logs (theorem), the side conditions of those rewrites hold '
+                  'for every loop whose inner nodes carry no waveform, in particular every built program (theorem, '
+                  'round 5), so it keeps the duration and only loses '
                   'own windows of unrolled loops.  (5) must_accept assignments are never rejected, every '
                   'model rejection names the class of a really violated condition; a window sticking out of its node is '
                   'accepted (witness).  (6) "windows follow a volatile count update" is refuted (known finding) and '
@@ -1363,7 +1373,9 @@ MANIFEST = {
                   'included) contributes the same windows as a part of an atomic composite (get_measurement_windows) and '
                   'as a node of its own (_internal_create_program): the two code paths agree.  All '
                   'models are tied to /repo by exact correspondence checks (programs, hand-built loops, step-by-step '
-                  'builder traces, constructor merges, rewrites, volatile updates).',
+                  'builder traces, constructor merges, rewrites, volatile updates).  The theorems are about the Coq '
+                  'models; what is established of /repo itself is the agreement of model, specification and '
+                  'implementation on the generated cases (clause map: notes/C02.md).',
     'level_note': 'Trusted: Coq kernel, harness + builder instrumentation, sympy/numpy evaluation of expressions, waveform '
                   'construction of atoms (only "plays" + duration are used), the transcription of which calls each '
                   'template class makes (Stack.events; checked call by call against instrumented runs).  Tested only: '
@@ -1371,7 +1383,11 @@ MANIFEST = {
                   'the volatile guard (guard on the model programs + nothing reversed + counts >= 1 => windows = '
                   'denote under the new counts: CVolG cases), termination of flatten_and_balance (fuel); windows are a '
                   'multiset everywhere (coinciding triples kept) and nothing leaks between calls / occurrences of one object: '
-                  'theorems of the model, tied to the code by the round-4 families.  Not covered: '
+                  'theorems of the model, tied to the code by the round-4 families; the second '
+                  'observation point plotting.render(...)[2] is tested only (must equal get_measurement_windows() on '
+                  'every program); cleanup() of loops with dead nodes is tested only (spec: windows of the tree without '
+                  'its dead non-root nodes).  Not covered: times off the dyadic grid (decimal durations / begins: the '
+                  'theorems are over Q, the generators are dyadic); '
                   'which missing parameter is reported; check / rejection kinds under absent parameters; the mirror axis of '
                   'a reversed atomic composite whose first part does not play (AtomicMultiChannelPT.duration, C04); '
                   'rewrites on loops with volatile counts.',
